@@ -400,7 +400,7 @@ func (m *gatherModel) Problems() []vtProblem {
 // TURN timeout: a cycle that was started and not cancelled by Restart (or ended by Close / Failed) has then run to
 // completion — the state is Complete and the cycle has emitted its one end-of-gathering marker.
 func (m *gatherModel) Finish() []vtProblem {
-	if m.closed || m.failed {
+	if m.closed || m.failed || m.cfg.NoFairCompletion {
 		return nil
 	}
 	time.Sleep(40 * time.Second)
@@ -453,6 +453,7 @@ func checkC09(c *runCtx) {
 			Rewrite: []AddressRewriteRule{{External: []string{"203.0.113.30", "203.0.113.31"}, AsCandidateType: CandidateTypeRelay, Mode: AddressRewriteAppend}}, Depth: depth - 1}},
 		{"relay dropped by a replace rule without externals (rule installed directly)", gatherCfg{Ifaces: gIfacesBasic, NetTypes: []string{"udp4"}, CandTypes: []string{"relay"}, URLs: []string{turnURL},
 			RewriteRaw: []AddressRewriteRule{{AsCandidateType: CandidateTypeRelay, Mode: AddressRewriteReplace}}, Depth: depth - 1}},
+		{"relay over TLS (turns:), the server never answers the handshake", gatherCfg{Ifaces: gIfacesBasic, NetTypes: []string{"udp4", "tcp4"}, CandTypes: []string{"relay"}, URLs: []string{"turns:198.51.100.1:5349?transport=tcp"}, Depth: depth - 1, NoFairCompletion: true}},
 		{"host + srflx + relay, started agent (Failed reachable)", gatherCfg{Ifaces: gIfacesBasic, NetTypes: []string{"udp4"}, CandTypes: []string{"host", "srflx", "relay"}, URLs: []string{stunURL, turnURL}, Depth: depth - 1, Start: true}},
 	}
 	if !c.quick() {
